@@ -253,6 +253,16 @@ def make_tree(rng, root, kind, unsendable=False):
             with open(p, "wb") as f:
                 f.write(rng.randbytes(rng.choice([0, 0, 1, 100, 16384, rng.randint(0, 40000)])))
         entries += 1
+    hardlinks = 0
+    files = [os.path.join(dp_, f_) for dp_, _, fn_ in os.walk(base) for f_ in fn_]
+    if files and rng.random() < 0.3:
+        # a second name for a file that is already in the tree (a hard link): two entries, one inode
+        for i in range(rng.randint(1, 2)):
+            p = os.path.join(rng.choice(dirs), "hardlink%d" % i)
+            if not os.path.lexists(p):
+                os.link(rng.choice(files), p)
+                hardlinks += 1
+                entries += 1
     skipped = []
     if unsendable:
         for i in range(rng.randint(1, 3)):
@@ -262,7 +272,7 @@ def make_tree(rng, root, kind, unsendable=False):
             if not os.path.lexists(p):
                 os.symlink(os.path.join(root, "no-such-target-%d" % i), p)
                 skipped.append(os.path.relpath(p, base))
-    return name, {"kind": "directory", "name": name, "entries": entries, "unsendable": skipped}
+    return name, {"kind": "directory", "name": name, "entries": entries, "unsendable": skipped, "hardlinks": hardlinks}
 
 
 def new_sandbox(prefix):
